@@ -63,6 +63,9 @@ func NewFunc(f func(ctx interface{})) func(ctx interface{}) bool {
 	if f == nil {
 		panic("BUG: f cannot be nil")
 	}
+	if verifDirect {
+		return func(ctx interface{}) bool { f(ctx); return true }
+	}
 
 	funcWorkCh := make(chan *funcWork, runtime.GOMAXPROCS(-1)*2048)
 	onceInit := func() {
